@@ -35,7 +35,8 @@ RULE = ("one PRNG (VERIF_SEED). A case = (initial Root value, reader chains, his
         "keys, around the growth steps of FieldKeys' hash map), nested (outer collection losing and gaining items — a new "
         "item takes over the path segment of a removed one — while the nested collections are restructured and their items "
         "read and written by key), patch (Patch::patch of structs/options/vectors/tuples with partial changes, a "
-        "#[patch] closure, PatchField for ()), keyed-ancestor (a keyed collection reordered through an ancestor's guard: open "
+        "#[patch] closure, PatchField for (), structs whose skipped field comes first / in the middle), huge (a vector of "
+        "65537 .. 70000 items, readers and writes / patches at positions i and i + 65536), keyed-ancestor (a keyed collection reordered through an ancestor's guard: open "
         "finding F-C16-e), patch-keyed (Patch of a keyed collection whose items changed in place, before and after a "
         "reorder: open finding F-C16-n). A case is non-trivial when at least one write wakes some but not all of the readers; distinct "
         "= distinct case hash.")
@@ -92,13 +93,15 @@ ASSUMPTIONS = [
 
 # ------------------------------------------------------------------------------------------ schema
 INT = ("int",)
-LEAF = ("struct", [INT, INT], ["0", "1"])           # tuple struct Leaf(i64, i64, #[store(skip)] ())
+UNIT = ("unit",)     # a #[store(skip)] field of type (): value [], no accessor, keeps its declaration index
+LEAF = ("struct", [INT, UNIT, INT], ["0", "_", "2"])     # tuple struct Leaf(i64, #[store(skip)] (), i64)
 TAG = ("struct", [INT, INT], ["id", "n"])           # item of the keyed collection nested in a keyed item
 ITEM = ("struct", [INT, INT, LEAF, ("keyed", TAG)], ["id", "n", "l", "kk"])
 # enum Choice { A, B(i64, Leaf), C { x: i64, y: i64 } }; value = [tag, fields..]
 CHOICE = ("enum", [[], [INT, LEAF], [INT, INT]], ["A", "B", "C"], [[], ["0", "1"], ["x", "y"]])
 TUP = ("tuple", [INT, INT])                          # (i64, i64): no accessors; PatchField for (A, B)
-SUB = ("struct", [INT, LEAF, ("vec", INT), ("box", LEAF), TUP, CHOICE], ["x", "l", "v", "b", "t", "e"])
+# Sub { #[store(skip)] z: (), x, l, v, b, t, e }: the accessors start at path segment 1
+SUB = ("struct", [UNIT, INT, LEAF, ("vec", INT), ("box", LEAF), TUP, CHOICE], ["_", "x", "l", "v", "b", "t", "e"])
 MID = ("struct", [INT, LEAF, ("opt", LEAF), ("keyed", ITEM)], ["x", "l", "o", "k"])
 ROOT = ("struct", [INT, MID, ("opt", SUB), ("vec", SUB), ("keyed", ITEM), CHOICE], ["a", "m", "o", "v", "k", "e"])
 
@@ -127,7 +130,7 @@ def has_child(sch, v, st):
     if kind == 5:
         return sch[0] == "box"
     if sch[0] == "struct":
-        return kind == 0 and 0 <= arg < len(sch[1])
+        return kind == 0 and 0 <= arg < len(sch[1]) and sch[1][arg] is not UNIT
     if sch[0] == "opt":
         return kind == 1 and arg in (0, 1) and len(v) == 1
     if sch[0] == "vec":
@@ -178,7 +181,7 @@ def well_typed(chain):
                 return False
             sch = sch[1]
             continue
-        if sch[0] == "struct" and kind == 0 and 0 <= arg < len(sch[1]):
+        if sch[0] == "struct" and kind == 0 and 0 <= arg < len(sch[1]) and sch[1][arg] is not UNIT:
             sch = sch[1][arg]
         elif sch[0] == "opt" and kind == 1 and arg in (0, 1):
             sch = sch[1]
@@ -222,7 +225,8 @@ def all_chains(tree, sch=ROOT, v=None, pre=()):
     out = [list(pre)]
     if sch[0] == "struct":
         for i, s in enumerate(sch[1]):
-            out += all_chains(tree, s, v[i], pre + (F(i),))
+            if s is not UNIT:
+                out += all_chains(tree, s, v[i], pre + (F(i),))
     elif sch[0] == "opt":
         if len(v) == 1:
             out += all_chains(tree, sch[1], v[0], pre + (U,))
@@ -285,6 +289,8 @@ def diff_paths(sch, old, new, pre):
     """reference for Patch: the fields whose value changed, as the finest paths at which the
     two trees differ (a vector whose length changes, or an option that appears/disappears,
     changes as a whole)"""
+    if sch[0] == "unit":
+        return []
     if sch[0] in ("int", "box", "enum"):
         return [] if old == new else [pre]
     if sch[0] in ("struct", "tuple"):
@@ -326,6 +332,8 @@ def rnd_int(rng):
 def rnd_value(rng, sch, size=2, keys=None):
     if sch[0] == "int":
         return rnd_int(rng)
+    if sch[0] == "unit":
+        return []
     if sch[0] == "box":
         return rnd_value(rng, sch[1], size)
     if sch[0] in ("struct", "tuple"):
@@ -353,11 +361,13 @@ def mutate(rng, sch, v, top=True):
     keyed collection written directly (top) is reordered / grown / shrunk."""
     if sch[0] == "int":
         return v + rng.randint(1, 5)
+    if sch[0] == "unit":
+        return v
     if sch[0] == "box":
         return mutate(rng, sch[1], v, False)
     if sch[0] in ("struct", "tuple"):
         out = list(v)
-        idxs = [i for i in range(len(sch[1])) if not (is_item(sch) and i == 0)]
+        idxs = [i for i in range(len(sch[1])) if not (is_item(sch) and i == 0) and sch[1][i] is not UNIT]
         for i in rng.sample(idxs, rng.randint(1, len(idxs))):
             out[i] = mutate(rng, sch[1][i], v[i], False)
         return out
@@ -450,7 +460,7 @@ def _keyed_change(rng, v, how, ever=(), sch=None):
 def rich_init(rng):
     """a store in which every container is populated"""
     def leaf():
-        return [rnd_int(rng), rnd_int(rng)]
+        return [rnd_int(rng), [], rnd_int(rng)]
     def tags():
         return [[k, rnd_int(rng)] for k in rng.sample(range(1, 30), rng.randint(1, 2))]
     def items(n):
@@ -458,7 +468,7 @@ def rich_init(rng):
     def choice():
         return rng.choice([[1, rnd_int(rng), leaf()], [2, rnd_int(rng), rnd_int(rng)]])
     def sub():
-        return [rnd_int(rng), leaf(), [rnd_int(rng) for _ in range(rng.randint(1, 2))], leaf(),
+        return [[], rnd_int(rng), leaf(), [rnd_int(rng) for _ in range(rng.randint(1, 2))], leaf(),
                 [rnd_int(rng), rnd_int(rng)], choice()]
     mid = [rnd_int(rng), leaf(), [leaf()], items(rng.randint(2, 3))]
     return [rnd_int(rng), mid, [sub()], [sub() for _ in range(2)], items(rng.randint(2, 3)), choice()]
@@ -630,6 +640,8 @@ def gen_allpairs(rng, chunk=9):
 def mutate_same_shape(rng, sch, v):
     if sch[0] == "int":
         return v + rng.randint(1, 5)
+    if sch[0] == "unit":
+        return v
     if sch[0] == "box":
         return mutate_same_shape(rng, sch[1], v)
     if sch[0] in ("struct", "tuple"):
@@ -652,7 +664,7 @@ def pick_readers(rng, tree, n, focus=None):
         if rng.random() < 0.2:
             # a chain that is not reachable now (may become so later)
             c2 = c + rng.choice([[U], [I(rng.randint(0, 3))], [K(rng.randint(1, 60))],
-                                 [U, F(1)], [I(rng.randint(0, 3)), F(0)], [K(rng.randint(1, 60)), F(1)],
+                                 [U, F(1)], [I(rng.randint(0, 3)), F(1)], [K(rng.randint(1, 60)), F(1)],
                                  [V(1, 0)], [V(1, 1), F(0)], [V(2, 1)], [K(rng.randint(1, 60)), F(3), K(rng.randint(1, 8))]])
             if well_typed(c2):
                 c = c2
@@ -717,6 +729,8 @@ def patch_value(rng, sch, v, keyed_items=False):
         if sch[0] == "struct":
             return [x if (is_item(sch) and i == 0) else patch_value(rng, s_, x, True)
                     for i, (s_, x) in enumerate(zip(sch[1], v))]
+    if sch[0] == "unit":
+        return v
     if sch[0] == "int":
         return v + (rng.randint(1, 5) if rng.random() < 0.5 else 0)
     if sch[0] == "box":
@@ -763,6 +777,45 @@ def gen_patch(rng, n_steps):
 
 
 LARGE_SIZES = [6, 7, 8, 13, 14, 15, 27, 28, 29, 40]     # around the growth steps of the FxHashMap of FieldKeys
+
+
+def gen_huge(rng):
+    """a vector with more than 65536 items (store.v[0].v: Vec<i64>): readers of item i, of item
+    i + 65536 (the two positions agree modulo 2^16) and of a neighbour; writes and patches at
+    both positions, a patch that also changes the length.  Path segments are positions: two
+    positions of one collection must never share their triggers, however far apart."""
+    init = rich_init(rng)
+    base = [F(3), I(0), F(3)]
+    n = rng.randint(65537, 70000)
+    i = rng.randint(0, n - 65537)
+    j = i + 65536
+    vals = [(x * 7919) % 997 + 1 for x in range(n)]
+    init = set_at(init, base, vals)
+    tree = init
+    readers = [base + [I(i)], base + [I(j)], base + [I(i + 1)], base + [I(n - 1)], [F(3), I(0), F(1)], [F(0)],
+               base + [I(n)]]
+    rng.shuffle(readers)
+    steps = []
+    def write(pos):
+        nonlocal tree
+        w = base + [I(pos)]
+        new = reach(tree, w)[2] + rng.randint(1, 5)
+        steps.append([0, w, new])
+        tree = set_at(tree, w, new)
+    def patch(changes, grow=0):
+        nonlocal tree
+        cur = list(reach(tree, base)[2])
+        for pos in changes:
+            cur[pos] += rng.randint(1, 5)
+        cur += [rnd_int(rng) for _ in range(grow)]
+        steps.append([1, base, cur])
+        tree = set_at(tree, base, cur)
+    order = [lambda: write(i), lambda: write(j), lambda: patch([j]), lambda: patch([i]),
+             lambda: patch([rng.choice([i, j])], grow=1)]
+    rng.shuffle(order)
+    for f in order[:rng.randint(3, 5)]:
+        f()
+    return mk(init, readers, steps, rnd_sched(rng), rnd_orders(rng, len(steps)), "huge", rng)
 
 
 def gen_patch_keyed(rng):
@@ -851,7 +904,7 @@ def gen_keyed(rng, n_steps, exact=False, nested=False, large=False):
                 live_since_report &= set(it[0] for it in new)
         elif r < 0.75 and cur:
             it = rng.choice(cur)
-            suffix = rng.choice([[], [F(1)]] if nested else [[], [F(1)], [F(2)], [F(2), F(0)], [F(2), F(1)]])
+            suffix = rng.choice([[], [F(1)]] if nested else [[], [F(1)], [F(2)], [F(2), F(0)], [F(2), F(2)]])
             w = fld + [K(it[0])] + suffix
             j, sch, v = reach(tree, w)
             new = mutate_same_shape(rng, sch, v)
@@ -883,7 +936,7 @@ def gen_keyed(rng, n_steps, exact=False, nested=False, large=False):
 def nested_item(rng, k):
     """an item whose nested keyed collection draws its keys from a small pool, so that the items
     following each other in a recycled slot have overlapping keys in different positions"""
-    return [k, rnd_int(rng), [rnd_int(rng), rnd_int(rng)],
+    return [k, rnd_int(rng), [rnd_int(rng), [], rnd_int(rng)],
             [[t, rnd_int(rng)] for t in rng.sample(range(1, 8), rng.randint(0, 4))]]
 
 
@@ -1008,7 +1061,7 @@ def gen_keyed_small(rng):
     cur = reach(tree, fld)[2]
     if cur:
         it = rng.choice(cur)
-        w = fld + [K(it[0])] + rng.choice([[F(1)], [F(2), F(1)], []])
+        w = fld + [K(it[0])] + rng.choice([[F(1)], [F(2), F(2)], []])
         j, sch, v = reach(tree, w)
         steps.append([0, w, mutate_same_shape(rng, sch, v)])
     steps.append([3, fld, []])
@@ -1079,6 +1132,8 @@ def generate(rng, tier):
     for _ in range(2 if quick else 20):
         for it in gen_basic(rng):
             yield it
+    for _ in range(2 if quick else 12):
+        yield gen_huge(rng)
     for _ in range(300 if quick else 6000):
         yield gen_keyed_small(rng)
     for _ in range(2500 if quick else 60000):
@@ -1173,6 +1228,8 @@ def valid_case(item):
 def well_formed(sch, v):
     if sch[0] == "int":
         return isinstance(v, int)
+    if sch[0] == "unit":
+        return v == []
     if sch[0] == "box":
         return well_formed(sch[1], v)
     if not isinstance(v, list):
